@@ -168,17 +168,17 @@ MANIFEST_TEXT = {
     "C05": {"text": "CasOK clauses (replaces iff equal, returns the previous value, success visible by pointer equality, rejected new released) incl. A-B-A schedules (same value stored back between the internal load and the exchange, all 2/3-switch schedules) and every AsRaw form of `current`."},
     "C06": {"text": "RcuOK: the installed value was computed from exactly the displaced one (parent tag), discarded attempts never visible; rcu x rcu / rcu x store under TLC, all 2/3-switch schedules incl. A-B-A on the real crate."},
     "C07": {"level_note": "interleavings only: defects that need a stale (non-latest) read are not visible to this monitor; VPtr follows Arc's count protocol", "text": "Happens-before monitor (spec/Mem.tla: vector clocks, release sequences, fences, Arc count protocol) over the atomic accesses the real code performed with the orderings it requested: every dereference needs the initialisation of the value in its past, every destruction needs all accesses in its past. Schedules: victim reader x atomic writers at every pair of reader steps with address reuse (found F2), random families, directed needles. The ordering table is extracted from the traces and drives the weak-memory models WeakFast.tla / WeakHelp.tla (view-based, stale reads, ISO SeqCst; found F7 and F8).", "technique": "TLA+ happens-before specification (Mem.tla) used as a TLC trace monitor over real executions"},
-    "C08": {"text": "LoadSteps invariant of ArcSwapImpl under all interleavings (TLC) and the step bound clause of ArcSwapAbs on real executions under an adversary that completes k writes after every reader step (150-600 writes available, 0-12 guards held, both strategies)."},
+    "C08": {"text": "LoadSteps invariant of ArcSwapImpl under all interleavings (TLC) and the step bound clause of ArcSwapAbs on real executions under an adversary that completes k writes after every reader step (150-600 writes available, 0-12 guards held, both strategies); a second bound (4x) for every load, also those that have to find their bookkeeping first (thread-local destructors, first load, after the wrap): they may walk the list of nodes but never wait."},
     "C09": {"text": "SoloProgress (ENABLED Step(t) whenever everybody else is frozen, from every reachable state) under TLC, SoloBound (the solo thread finishes its operation within 120 own steps - a loop waiting for somebody else's progress keeps a step enabled; seeded model bug 'cooldown_wait' must violate it), plus the temporal property Termination (every operation completes under weak fairness; a seeded model bug must violate it); on the real crate a randomly chosen thread is run alone from a random point and must finish its operation within SoloStepBound own steps; non-terminating executions are violations."},
-    "C10": {"text": "GuardStable/NoUAF clauses for guards: > 8 guards, guards dropped on other threads, creating thread exited, node re-claimed, container dropped first; TLC configurations rw1h, churn, churn2; real executions of the guards/churn/drop families and systematic schedules."},
-    "C11": {"text": "Node life-cycle in ArcSwapImpl (NodeExclusive, NodeUsedOwned, NodeBound) under TLC; on real executions the node-protocol monitor of Mem.tla (transaction state touched only by the owner or a registered writer; no hand-over while a pre-cool-down writer is inside; single owner), the bound #nodes <= 2 x peak threads, operations from thread-local destructors, systematic re-claim-under-writer schedules."},
+    "C10": {"text": "GuardStable/NoUAF clauses for guards: > 8 guards, guards dropped on other threads, creating thread exited, node re-claimed, container dropped first; TLC configurations rw1h, churn, churn2; real executions of the guards/churn/drop families and systematic schedules; the hand-over of a node between threads under weak memory (spec/WeakNode.tla: the next owner must see the debts of guards that outlive the previous one) model-checked under the ordering table extracted from the code."},
+    "C11": {"text": "Node life-cycle in ArcSwapImpl (NodeExclusive, NodeUsedOwned, NodeBound) under TLC; on real executions the node-protocol monitor of Mem.tla (transaction state touched only by the owner or a registered writer; no hand-over while a pre-cool-down writer is inside; single owner), the bound #nodes <= 2 x peak threads, operations from thread-local destructors, systematic re-claim-under-writer schedules; at every return the node a thread considers its own is reserved and not shared; at every quiescent point not more nodes are reserved than threads are alive and no two nodes offer the same hand-over envelope."},
     "C12": {"text": "Two containers under TLC (2c configurations); on real executions a load that returns a value only ever stored in another container is attributed to C12 (foreign-value clause), multi/solo2c families, re-claim schedules across containers."},
-    "C13": {"text": "GenMod = 2 in ArcSwapImpl: the design of 1.7.1 (WrapMode code) violates NoPanic (negative control = finding F1), the repaired design (fixed) holds all invariants incl. the nested case; on the real crate the generation counter is preset next to the wrap (verif::set_generation), incl. the wrap inside a writer's nested load at every reader position; any panic, abort or hang of an operation is a violation."},
+    "C13": {"text": "GenMod = 2 in ArcSwapImpl: the design of 1.7.1 (WrapMode code) violates NoPanic (negative control = finding F1), the repaired design (fixed) holds all invariants incl. the nested case; on the real crate the generation counter is preset next to the wrap (verif::set_generation), incl. the wrap inside a writer's nested load at every reader position; a full cycle of the generations while a writer is stopped inside help (model bug wrap_not_detected / until:wrap-cycle schedules); any panic, abort or hang of an operation is a violation, and so is any other clause failing in an execution with a preset counter."},
     "C14": {"text": "The lock-based strategy has its own implementation-shaped specification (spec/RwLockImpl.tla: lock operations and accesses of rw_lock.rs + lib.rs), model-checked against the same ArcSwapAbs (4 configurations incl. 3 threads, Termination under fairness, seeded bug 'compare_and_swap not atomic' must be caught), and is executed concurrently on the real crate (the scheduler takes the baton away from a thread that blocks on the lock). All sequential programs of length <= 2 (thorough: 3) plus random deeper ones are enumerated by TLC from spec/SeqGen.tla and executed under DefaultStrategy, the fallback-only strategy and RwLock<()>; ArcSwapAbs pins every returned identity and every count in a sequential run; the identities must also agree across the strategies."},
     "C15": {"text": "All operation sequences (into_ptr, from_ptr, as_ptr, inc, dec, clone, drop, upgrade, drop of the target) up to length 4/5 from 20 initial count states are enumerated by TLC from spec/RefCntLaws.tla with the predicted counts and executed on the real impls for 4 pointee layouts."},
     "C16": {"text": "Cache::new / Cache::load (Relaxed pointer compare + load_full, release of the superseded value) are actions of ArcSwapImpl, model-checked against the cache clauses of ArcSwapAbs (seeded model bug 'never revalidates' must be caught). Cache clauses of ArcSwapAbs (value returned was stored during the call, i.e. current-or-newer and never older than the previous result) on concurrent executions incl. a store landing at every point inside Cache::load followed by address reuse; sequential cache programs via SeqGen; all programs of <= 4 (thorough: 5) stores / loads through every way of looking through a cache (inherent load, the Access trait, a mapped cache, a clone; ArcSwap and ArcSwapOption with None) enumerated by TLC from spec/CacheViews.tla with the predicted result and the predicted strong count of every value after every step."},
     "C17": {"text": "Projection guards through Access, Map (static), Box<dyn DynAccess>, Map of Map, AccessConvert and ArcSwapAny::map: the snapshot shown is one value stored during the load, stays the same and alive for the guard's life while stores happen."},
-    "C18": {"text": "Fault enumeration: panicking destructors at every site where the library drops a value (displaced by store, rejected by compare_and_swap/rcu, candidate of a helped fallback load, guard drop) and panicking rcu closures on attempt 1..3, under contention; after unwinding the ledger clauses must hold (tagged C18)."},
+    "C18": {"text": "Fault enumeration: panicking destructors at every site where the library drops a value (displaced by store, rejected by compare_and_swap/rcu, candidate of a helped fallback load, guard drop) and panicking rcu closures on attempt 1..3, under contention; systematically: the stored value has a panicking destructor and the container is its only owner, a load / load_full / rejected compare_and_swap / rcu is stopped at every point while a store completes and then releases the last reference inside the library; after unwinding the ledger clauses must hold (tagged C18)."},
     "C19": {"text": "TLC evaluates the auto-trait algebra of spec/AutoTraits.tla (440 instantiations: handles Arc/&/Rc/Box, projections thread-bound/shareable) incl. its soundness clause; rustc answers the same 880 questions about the real types through a compile-time probe; each row must be sound and, except DynGuard, exact.", "technique": "TLA+ table (AutoTraits.tla) evaluated by TLC, compared with rustc's answers"},
     "C20": {"text": "Value shapes enumerated by TLC (SerdeShapes.tla); for each: serialize(container) = serialize(stored pointer), deserialize gives the value with a single reference, round trip, for ArcSwap / ArcSwapOption (Some, None) under 3 strategies.", "technique": "TLC-enumerated inputs, relational oracle on the real serde impls"},
 }
